@@ -134,7 +134,11 @@ class MosFile:
         """
         The XML string of the MOS file
         """
-        return ElementTree.tostring(self.xml, encoding='unicode')
+        # ElementTree writes a carriage return in text as it is, and an XML
+        # parser reads a literal one back as a line feed: write it as a
+        # character reference so the string reads back to the same document
+        xml = ElementTree.tostring(self.xml, encoding='unicode')
+        return xml.replace('\r', '&#13;')
 
     def __lt__(self, other) -> bool:
         """
